@@ -10,7 +10,7 @@ R-C14-4  the RNG is rebuilt after the absorptions of every step and before that 
 from bpsa.facts import callee_decl, callee_name
 from bpsa.terms import walk, short, TERM_IDX
 from bpsa.trace import strip
-from . import wire
+from . import wire, ilen
 
 LEVEL_TEXT = ('Static analysis (boundary-event trace + def-use over MIR). Decides that the prover never draws from the external RNG directly, that '
               'every draw uses a merlin TranscriptRng built from the live transcript, rekeyed with the complete serialised witness and finalised '
@@ -136,6 +136,27 @@ def run(ctx):
         okv, okr = whole(fields.get('v', [])), whole(fields.get('r', []))
         r_each = any(x.tag == 'elem' and x[1].tag == 'field' and x[1][1] == 'r' for x in walk(d))
         no_adapt = not ctx.adapters(d)
+        # fills that happen in a loop pairing the source with something else (slots carved out of a pre-sized buffer): the pairing must
+        # be exhaustive, i.e. both sides have the same number of items (symbolic length arithmetic), or elements are left out
+        for ev in [x for x in walk(d) if x.tag == 'ev' and x[4]]:
+            bkey, ebb = ev[4][-1]
+            eb = ctx.facts.by_key.get(bkey)
+            if eb is None:
+                continue
+            for lp in ctx.enclosing_loops(eb, ebb):
+                z = strip(lp.iter_term) if lp.iter_term is not None else None
+                if z is None or z.tag != 'zip':
+                    continue
+                zk = 'R-C14-2/rekey/%02d/paired-fill@%s' % (n, lp.header)
+                try:
+                    ca, cb = ilen.icount(z[1]), ilen.icount(z[2])
+                    same = ca == cb
+                    why = '%s vs %s' % (ca, cb)
+                except ilen.NoLen as ex:
+                    same, why = False, 'lengths not comparable (%s)' % ex
+                rep.check(same, 'R-C14-2', zk, 'the fill loop pairs its two sides exhaustively (equal counts: %s)' % why,
+                          'a fill loop of the witness bytes pairs the secret source with slots of a different count (%s): part of the witness may be left out of the RNG key' % why,
+                          ctx.where(eb, ebb))
         rep.check(lab == wire.WITNESS_LABEL and okv and okr and r_each and no_adapt, 'R-C14-2', key,
                   'rekey #%d uses label %r and bytes containing every opening\'s value and every blinding factor' % (n, lab),
                   'rekey #%d: label %r, value covered: %s, blinding factors covered: %s (element-wise: %s); data = %s' % (n, lab, okv, okr, r_each and no_adapt, short(d, 200)) + (' through %s' % ctx.adapters(d) if not no_adapt else ''),
